@@ -40,7 +40,7 @@ func (mux *ServeMux) match(q string, t uint16) Handler {
 	var handler Handler
 	for off, end := 0, false; !end; off, end = NextLabel(q, off) {
 		if h, ok := mux.z[q[off:]]; ok {
-			if t != TypeDS {
+			if t != TypeDS || handler != nil {
 				return h
 			}
 			// Continue for DS to see if we have a parent too, if so delegate to the parent
